@@ -14,7 +14,7 @@ From V.c17 Require Import C17Spec C17Model C17TypedModel.
 From V.c18 Require C18Model.
 From V.c14 Require C14Spec C14Model.
 From V.c16 Require Import C16AuxModel C16AuxSeiProofs C16AuxExtractProofs C16AuxAacProofs C16AuxScanProofs C16AuxStreamProofs
-  C16SeiStrModel C16SeiStrProofs C16SeiFswModel C16SeiFswProofs.
+  C16SeiStrModel C16SeiStrProofs C16SeiFswModel C16SeiFswProofs C16SeiFswTieProofs.
 
 (* ------------------------------------------------------------------ sei.ExtractSEIData *)
 (* every byte list: the Go-shaped run returns what the C17 model returns; never out of fuel;
@@ -307,33 +307,29 @@ Theorem C16_bits_FixedSliceWriter_total : forall (cap : Z) (ops : list wop), (0 
 Proof. exact fsw_payload_total. Qed.
 Print Assumptions C16_bits_FixedSliceWriter_total.
 
-(* EVERY message value (any number of clocks, every field any number: the Go fields are bytes / uint16 / uint32):
-   Payload() returns at most Size() bytes, and Size() is linear in the number of clocks and the length fields *)
-Theorem C16_sei_TimeCodeSEI_Payload_total : forall cs : list clock,
-  exists bs e, tc_payload_p cs = Ok (bs, e) /\ lenN bs <= tc_size cs /\
-               8 * tc_size cs <= 9 + 44 * lenN cs + sumN (map c_tolen cs).
-Proof. exact tc_payload_total. Qed.
-Print Assumptions C16_sei_TimeCodeSEI_Payload_total.
-
-Theorem C16_sei_PicTimingAvcSEI_Payload_total : forall m : pic_timing,
-  exists bs e, pt_payload_p m = Ok (bs, e) /\ lenN bs <= pt_size m /\
-               8 * pt_size m <= hrd_bits (p_hrd m) + 11 + 40 * lenN (p_clocks m) + sumN (map a_tolen (p_clocks m)).
-Proof. exact pt_payload_total. Qed.
-Print Assumptions C16_sei_PicTimingAvcSEI_Payload_total.
+(* EVERY message value (any number of clocks, every field any number: the Go fields are bytes / uint16 / uint32 / uint):
+   Payload() returns at most Size() bytes, and Size() is linear in the number of clocks and the length fields
+   (grouped: every Print Assumptions costs about a second of the quick tier) *)
+Theorem C16_sei_FixedSliceWriter_Payloads_total :
+  (forall cs : list clock,
+     exists bs e, tc_payload_p cs = Ok (bs, e) /\ lenN bs <= tc_size cs /\
+                  8 * tc_size cs <= 9 + 44 * lenN cs + sumN (map c_tolen cs)) /\
+  (forall m : pic_timing,
+     exists bs e, pt_payload_p m = Ok (bs, e) /\ lenN bs <= pt_size m /\
+                  8 * pt_size m <= hrd_bits (p_hrd m) + 11 + 40 * lenN (p_clocks m) + sumN (map a_tolen (p_clocks m))).
+Proof. exact (conj tc_payload_total pt_payload_total). Qed.
+Print Assumptions C16_sei_FixedSliceWriter_Payloads_total.
 
 (* every payload (and every external parameter): decode, then Payload() of the decoded message *)
-Theorem C16_sei_TimeCode_decode_then_Payload_total : forall payload : list N,
-  tc_decode_payload_p payload = Err \/
-  exists k bs e, tc_decode_payload_p payload = Ok (k, bs, e) /\ k <= 3.
-Proof. exact tc_decode_payload_total. Qed.
-Print Assumptions C16_sei_TimeCode_decode_then_Payload_total.
-
-Theorem C16_sei_PicTimingAvc_decode_then_Payload_total :
-  forall (ext : option hrd_delay) (tolen : N) (payload : list N),
-  pt_decode_payload_p ext tolen payload = Err \/
-  exists k bs e, pt_decode_payload_p ext tolen payload = Ok (k, bs, e) /\ 1 <= k <= 3.
-Proof. exact pt_decode_payload_total. Qed.
-Print Assumptions C16_sei_PicTimingAvc_decode_then_Payload_total.
+Theorem C16_sei_decode_then_FixedSliceWriter_Payload_total :
+  (forall payload : list N,
+     tc_decode_payload_p payload = Err \/
+     exists k bs e, tc_decode_payload_p payload = Ok (k, bs, e) /\ k <= 3) /\
+  (forall (ext : option hrd_delay) (tolen : N) (payload : list N),
+     pt_decode_payload_p ext tolen payload = Err \/
+     exists k bs e, pt_decode_payload_p ext tolen payload = Ok (k, bs, e) /\ 1 <= k <= 3).
+Proof. exact (conj tc_decode_payload_total pt_decode_payload_total). Qed.
+Print Assumptions C16_sei_decode_then_FixedSliceWriter_Payload_total.
 
 (* the buffer operations are partial: the same byte written at off = len(buf) panics without WriteUint8's check;
    a 256-bit and a 255-bit field in a picture timing value (length fields 255 / 254): 65 bytes, no error;
@@ -344,3 +340,26 @@ Example ex_fsw_partial :
   tc_payload_p [mkClock true false 0 false false false 0 false 0 false 0 false 0 5 1] = Ok ([96; 0; 0; 161], true) /\
   tc_decode_payload_p [96; 64; 65; 152; 180; 16] = Ok (1, [96; 64; 65; 152; 180; 16], false).
 Proof. vm_compute. repeat split. eexists; split; reflexivity. Qed.
+
+(* ... and the bytes are those of C17's total model of the same writer (C17TypedModel.fsw_bytes: the C13 plain bit
+   writer on an unbounded output, cut at the capacity), for every capacity and every sequence of writes whose values
+   fit Go's uint (op_u64: value < 2^64; the widths are arbitrary): the C17 theorems about tc_payload / pt_payload
+   (round trip, Size) are theorems about what the partial writer returns.  C16SeiFswTieProofs.v: simulation
+   "buf[:off] = output so far" while accError is nil, "buf = the first `capacity` bytes of the output" after it. *)
+Theorem C16_bits_FixedSliceWriter_is_C17 : forall (cap : N) (ops : list wop) (bs : list N) (e : bool),
+  forallb op_u64 ops = true -> fsw_payload_p (Z.of_N cap) ops = Ok (bs, e) -> bs = fsw_bytes cap ops.
+Proof. exact fsw_payload_is_fsw_bytes. Qed.
+Print Assumptions C16_bits_FixedSliceWriter_is_C17.
+
+Theorem C16_sei_FixedSliceWriter_Payloads_are_C17 :
+  (forall cs : list clock, forallb op_u64 (tc_ops cs) = true -> exists e, tc_payload_p cs = Ok (tc_payload cs, e)) /\
+  (forall m : pic_timing, forallb op_u64 (pt_ops m) = true -> exists e, pt_payload_p m = Ok (pt_payload m, e)).
+Proof. exact (conj tc_payload_is_c17 pt_payload_is_c17). Qed.
+Print Assumptions C16_sei_FixedSliceWriter_Payloads_are_C17.
+
+(* the hypothesis holds of hostile values: length fields 255 / 254 / 255, a negative time offset (uint(int) = 2^64 - 3) *)
+Example ex_fsw_op_u64 :
+  forallb op_u64 (pt_ops (mkPT (Some (mkHrd 5 (two64 - 1) 0 255 254)) 0 3
+                               [mkClockAvc true 3 true 31 false true true 255 true 63 true 63 true 31 255 (-3)%Z])) = true /\
+  forallb op_u64 (tc_ops [mkClock true true 31 true true true 511 false 63 false 63 false 31 255 4294967295]) = true.
+Proof. vm_compute. split; reflexivity. Qed.
